@@ -170,6 +170,7 @@ pub fn run(ctx: &Ctx) -> ! {
         inconclusive(&ev, &format!("oracle calibration failed: {e}"));
     }
     let mut hp = HistoryParams::standard(ctx.tier);
+    hp.kicks = true;
     hp.weights = [12, 8, 14, 1, 0, 2, 1, 30, 5, 1, 1, 6];
     hp.cross_decrypt_every = 0;
     let spec = RunSpec {
